@@ -47,7 +47,7 @@ func (c03Suite) Gen(rng *Rng, tier string, w *bufio.Writer, stats *Stats) {
 	for _, fam := range []struct {
 		name string
 		qs   []string
-	}{{"scope", focusedScopeShapes()}, {"with-rename", focusedWithShapes()}, {"suffix", focusedSuffixShapes()}, {"aggregate", focusedAggregateShapes()}} {
+	}{{"scope", focusedScopeShapes()}, {"with-rename", focusedWithShapes()}, {"suffix", focusedSuffixShapes()}, {"aggregate", focusedAggregateShapes()}, {"path-predicate", focusedPathPredicateShapes()}} {
 		for _, q := range fam.qs {
 			emit("focused:"+fam.name, "q "+jsonQuote(q))
 			stats.Inc("focused." + fam.name)
